@@ -14,7 +14,7 @@ var Points = []string{
 	"socket.OnClose.window", "socket.Close.window", "socket.Close.beforeDrainWait", "socket.onDrain.afterShift", "socket.doFlush.batchTaken", "map.slowPath", "socket.readyState",
 	"server.Handshake.afterNewSocket", "server.onWebSocket.beforeMaybeUpgrade",
 	"socket.MaybeUpgrade.enter", "socket.upgrade.check.window",
-	"polling.send.start", "ws.send.start", "wt.send.start",
+	"polling.send.start", "polling.write.requestTaken", "ws.send.start", "wt.send.start",
 	"timer.interval.afterTick", "timer.Stop.afterStop", "socket.ping.between",
 	"wt.nilSession.CloseWithError",
 }
